@@ -134,6 +134,9 @@ class Prop(BaseProp):
         body = []
         self.doc_flags = []
         ncmd = rng.randint(2, 8)
+        if rng.random() < 0.04:
+            ncmd = rng.randint(150, 400)        # a file well beyond any read-buffer size, non-ASCII spread all over it
+            self.big_files = getattr(self, "big_files", 0) + 1
         for k in range(ncmd):
             args = [argen.any_arg(rng) for _ in range(rng.randint(0, 6))]
             nm = rng.choice(names)
@@ -194,6 +197,8 @@ class Prop(BaseProp):
                         tr.update(t1)
                         res.count("files_traced_individually")
             sigs = []
+            res.count("large_files", getattr(self, "big_files", 0))
+            self.big_files = 0
             for p, text, (names, doc_flags) in files:
                 res.count("programs")
                 wit = {"text": text}
